@@ -275,6 +275,8 @@ PROPS["C10"] = dict(
         dict(pkg=CT, run="^VerifC10_Ops1Break$", tiers=["quick", "thorough"], replay="model", preempt=1, timeout=3000, reach=["transport-lost", "ping-after-loss"]),
         # the container init is killed at an arbitrary transport event around a call: end-of-file on the host side
         dict(pkg=CT, run="^VerifC10_InitDies$", replay="model", preempt=1, timeout=1500, reach=["init-killed", "call-returned", "call-failed"]),
+        # another operation on the same environment while a program runs (its command must never be taken for the run's kill message)
+        dict(pkg=CT, run="^VerifC17_OpDuringExecve$", replay="model", preempt=1, timeout=1500, reach=["both-returned", "program-ran"]),
         dict(pkg=CT, run="^VerifC10_Ops2$", tiers=["thorough"], replay="model", preempt=1, timeout=30000, max_paths=50000000),
     ],
 )
